@@ -1,5 +1,7 @@
 import Generated.PyParagraphFormatting
-import Props.C01pyc
+import Proofs.PyStr
+import Proofs.Emit
+import Model.Emit
 import Model.Widths
 /-!
 # C01 — translator tie for the paragraph-formatting emitter
